@@ -50,7 +50,7 @@ class C01(Prop):
             g = n + rng.randint(0, 3)
         elif mode == 1:
             divs = [x for x in range(1, n + 1) if n % x == 0]
-            g = rng.choice(divs)
+            g = rng.choice(divs or [1])
         ge = min(n, g)
         kmode = rng.randrange(8)
         if kmode <= 1:
